@@ -292,8 +292,11 @@ func (l *commitLog) AppendMessageSet(ms []byte) ([]int64, error) {
 	var (
 		segment      = l.activeSegment()
 		basePosition = segment.Position()
-		entries      = entriesForMessageSet(basePosition, ms)
+		entries, err = entriesForMessageSet(basePosition, ms)
 	)
+	if err != nil {
+		return nil, err
+	}
 	return l.append(segment, ms, entries)
 }
 
